@@ -50,7 +50,17 @@ EDITS = [
      ['evaluators.SurfaceEvaluator.evaluate#active_hull'], 'caught'),
     ('evaluators.py', 'zip(temp, ctrlpts[iv + dv + (size[1] * (iu + du + (size[0] * (iw + dw))))])]',
      'zip(temp, ctrlpts[iv + dv + (size[1] * (iu + du + (size[1] * (iw + dw))))])]', ['evaluators.VolumeEvaluator.evaluate'], 'caught'),
+    ('helpers.py', '            coeff /= linalg.binomial_coefficient((degree + num), i)', '            coeff /= linalg.binomial_coefficient((degree + num + 1), i)',
+     ['helpers.degree_elevation'], 'caught'),
+    ('helpers.py', '        if num <= 0:\n            raise GeomdlException("Cannot degree elevate', '        if num < 0:\n            raise GeomdlException("Cannot degree elevate',
+     ['helpers.degree_elevation'], 'caught'),
+    ('helpers.py', '    pts_red[-1] = ctrlpts[-1]', '    pts_red[-1] = ctrlpts[-2]', ['helpers.degree_reduction'], 'caught'),
+    ('helpers.py', '        if degree < 2:\n            raise GeomdlException("Input spline geometry must have degree > 1")',
+     '        if degree < 1:\n            raise GeomdlException("Input spline geometry must have degree > 1")', ['helpers.degree_reduction'], 'caught'),
+    ('linalg.py', '    return float(k_fact / (k_i_fact * i_fact))', '    return float(k_fact / (k_i_fact + i_fact))', ['linalg.binomial_coefficient'], 'caught'),
     # ---- harmless
+    ('helpers.py', '        start = max(0, (i - num))\n        end = min(degree, i)', '        end = min(i, degree)\n        start = max((i - num), 0)',
+     ['helpers.degree_elevation'], 'quiet'),
     ('fitting.py', '    d = sum(cds[1:-1])', '    d = sum(cds[1:num_points])', ['fitting.compute_params_curve'], 'quiet'),
     ('evaluators.py', 'temp[:] = [tmp + (basis[1][j][l] * cp) for tmp, cp in', 'temp[:] = [(cp * basis[1][j][l]) + tmp for tmp, cp in',
      ['evaluators.SurfaceEvaluator.evaluate', 'evaluators.SurfaceEvaluator.evaluate#active_hull'], 'quiet'),
